@@ -31,6 +31,7 @@ type Prog struct {
 	Funcs  []*ssa.Function // every function with a body that belongs to an rcproxy package (incl. closures)
 	byName map[string]*ssa.Function
 
+	anchors   map[*ssa.Function]bool // functions that rules resolve by name (never inlined)
 	implCache map[string][]*ssa.Function
 	refCache  map[*ssa.Function][]Site
 	refBuilt  bool
@@ -96,7 +97,7 @@ func Load(repo, cfgSpec string) (*Prog, error) {
 		return nil, &loadError{"the tree does not type-check:\n  " + strings.Join(errs, "\n  ")}
 	}
 	p := &Prog{Repo: repo, Tags: cfgSpec, Pkgs: map[string]*packages.Package{}, SPkgs: map[string]*ssa.Package{},
-		byName: map[string]*ssa.Function{}, implCache: map[string][]*ssa.Function{}}
+		byName: map[string]*ssa.Function{}, implCache: map[string][]*ssa.Function{}, anchors: map[*ssa.Function]bool{}}
 	for _, pk := range pkgs {
 		if pk.PkgPath == modPath || strings.HasPrefix(pk.PkgPath, modPath+"/") {
 			p.Pkgs[pk.PkgPath] = pk
@@ -168,17 +169,23 @@ func shortFn(fn *ssa.Function) string {
 }
 
 // Func resolves "rcproxy/core.(*conn).write" style keys. nil if absent.
-func (p *Prog) Func(key string) *ssa.Function { return p.byName[key] }
+func (p *Prog) Func(key string) *ssa.Function {
+	f := p.byName[key]
+	if f != nil && p.anchors != nil {
+		p.anchors[f] = true
+	}
+	return f
+}
 
 // Method resolves a method of a named type of a package: Method("rcproxy/core", "conn", "write").
 func (p *Prog) Method(pkg, typ, name string) *ssa.Function {
-	if f := p.byName[fmt.Sprintf("(*%s.%s).%s", pkg, typ, name)]; f != nil {
+	if f := p.Func(fmt.Sprintf("(*%s.%s).%s", pkg, typ, name)); f != nil {
 		return f
 	}
-	return p.byName[fmt.Sprintf("(%s.%s).%s", pkg, typ, name)]
+	return p.Func(fmt.Sprintf("(%s.%s).%s", pkg, typ, name))
 }
 
-func (p *Prog) PkgFunc(pkg, name string) *ssa.Function { return p.byName[pkg+"."+name] }
+func (p *Prog) PkgFunc(pkg, name string) *ssa.Function { return p.Func(pkg + "." + name) }
 
 func (p *Prog) typesPkg(pkg string) *types.Package {
 	if pk := p.Pkgs[pkg]; pk != nil {
